@@ -49,6 +49,102 @@ func (w *vC17Witness) ServeDNS(ctx context.Context, ch *middleware.Chain) {
 	ch.Cancel()
 }
 
+// vC17Job is the owned-transport job (strict slots, wire lease) reporting an arbitrary remote address:
+// *net.UDPAddr = the UDP engine's job, *net.TCPAddr = the TCP / DoT engine's job.
+type vC17Job struct {
+	strictTestJob
+	addr net.Addr
+}
+
+func (j *vC17Job) RemoteAddr() net.Addr { return j.addr }
+
+// vC17Plain is a transport of the DoQ kind: a Proto() method, no Internal() method, whatever address it is given.
+type vC17Plain struct {
+	addr  net.Addr
+	proto string
+	msg   *dns.Msg
+}
+
+func (t *vC17Plain) LocalAddr() net.Addr       { return &net.UDPAddr{IP: net.IPv4(127, 0, 0, 1), Port: 853} }
+func (t *vC17Plain) RemoteAddr() net.Addr      { return t.addr }
+func (t *vC17Plain) Proto() string             { return t.proto }
+func (t *vC17Plain) WriteMsg(m *dns.Msg) error { t.msg = m; return nil }
+func (t *vC17Plain) Write(b []byte) (int, error) {
+	t.msg = new(dns.Msg)
+	return len(b), t.msg.Unpack(b)
+}
+func (t *vC17Plain) Close() error { return nil }
+
+func vC17CoqIP(ip net.IP) string {
+	switch len(ip) {
+	case 4:
+		return fmt.Sprintf("(Some (mk_addr true %s))", new(big.Int).SetBytes(ip).String())
+	case 16:
+		return fmt.Sprintf("(Some (mk_addr false %s))", new(big.Int).SetBytes(ip).String())
+	}
+	return "None"
+}
+
+// vC17CoqRemote renders what a transport reports (address type, IP bytes, port, Internal() method if any)
+// as the model's [remote]
+func vC17CoqRemote(tr middleware.Transport) string {
+	kind, ip, port := "KOther", "None", 0
+	switch x := tr.RemoteAddr().(type) {
+	case *net.UDPAddr:
+		kind, ip, port = "KUdp", vC17CoqIP(x.IP), x.Port
+	case *net.TCPAddr:
+		kind, ip, port = "KTcp", vC17CoqIP(x.IP), x.Port
+	case *net.IPAddr:
+		ip = vC17CoqIP(x.IP)
+	}
+	says := "None"
+	if i, ok := tr.(interface{ Internal() bool }); ok {
+		says = fmt.Sprintf("(Some %v)", i.Internal())
+	}
+	return fmt.Sprintf("(mk_remote %s %s %d %s)", kind, ip, port, says)
+}
+
+var vC17Paths = []string{"wire-udp-job", "decoded-udp", "decoded-tcp", "inline+replay", "wire-tcp-job", "doh-writer", "doq-like-writer", "foreign-addr-type"}
+
+// vC17Serve sends one query from (ip, port) over the given path through the server's production entry
+// points and reports the remote the transport showed and whether the client got a reply.
+func vC17Serve(s *Server, path int, ip net.IP, port int, q *dns.Msg) (remote string, replied bool) {
+	ap := func() string {
+		a, _ := netip.AddrFromSlice(ip)
+		return netip.AddrPortFrom(a, uint16(port)).String()
+	}
+	switch path {
+	case 0, 3, 4:
+		var addr net.Addr = &net.UDPAddr{IP: ip, Port: port}
+		if path == 4 {
+			addr = &net.TCPAddr{IP: ip, Port: port}
+		}
+		job := &vC17Job{addr: addr}
+		raw, _ := q.Pack()
+		now := time.Now()
+		if path == 3 { // the UDP reader's inline pass, then the worker's replay when it hands off
+			if !s.ServeRawInline(job, raw, now) && len(job.wrote) == 0 {
+				s.ServeRawReplay(job, raw, now)
+			}
+		} else {
+			s.ServeRaw(job, raw, now)
+		}
+		return vC17CoqRemote(job), len(job.wrote) > 0
+	case 1, 2, 5:
+		mw := mock.NewWriter([]string{"", "udp", "tcp", "", "", "doh"}[path], ap()) // 5: what ServeHTTP builds for DoH / DoH3
+		s.ServeMsg(context.Background(), mw, q)
+		return vC17CoqRemote(mw), mw.Written()
+	case 6:
+		tr := &vC17Plain{addr: &net.UDPAddr{IP: ip, Port: port}, proto: "doq"}
+		s.ServeMsg(context.Background(), tr, q)
+		return vC17CoqRemote(tr), tr.msg != nil
+	default:
+		tr := &vC17Plain{addr: &net.IPAddr{IP: ip}, proto: "udp"}
+		s.ServeMsg(context.Background(), tr, q)
+		return vC17CoqRemote(tr), tr.msg != nil
+	}
+}
+
 func vC17Big(a netip.Addr) *big.Int {
 	if a.Is4() {
 		b := a.As4()
@@ -89,11 +185,44 @@ func TestVerifC17Chain(t *testing.T) {
 	}
 	r := rand.New(rand.NewSource(int64(seed) + 53))
 	qn := 0
-	for c := 0; c < n; c++ {
+	// corpus first (corpus/C17/chain.json): minimal failing inputs of the seeded changes this driver caught
+	var corpus []struct {
+		From       string   `json:"from"`
+		AccessList []string `json:"accesslist"`
+		Reflex     bool     `json:"reflex_block_mode"`
+		Probes     []struct {
+			Src      string `json:"src"`
+			Form     int    `json:"ip_bytes"`
+			Port     int    `json:"port"`
+			Path     string `json:"path"`
+			Cached   bool   `json:"cached_name"`
+			Declined bool   `json:"strict_declined_shape"`
+			Burst    int    `json:"burst"` // > 0: that many high-amplification queries instead of one query
+		} `json:"probes"`
+	}
+	if dir := os.Getenv("VERIF_CORPUS"); dir != "" {
+		if raw, err := os.ReadFile(dir + "/chain.json"); err == nil {
+			if err := json.Unmarshal(raw, &corpus); err != nil {
+				t.Fatalf("corpus chain.json: %v", err)
+			}
+		}
+	}
+	for c := -len(corpus); c < n; c++ {
 		var good []netip.Prefix
 		var cidrs []string
-		shape := r.Intn(10)
-		cnt := 1 + r.Intn(4)
+		fixed := c < 0
+		shape, cnt := -1, 0
+		if fixed {
+			cidrs = corpus[c+len(corpus)].AccessList
+			for _, e := range cidrs {
+				if p, err := netip.ParsePrefix(e); err == nil {
+					good = append(good, p)
+				}
+			}
+		} else {
+			shape = r.Intn(10)
+			cnt = 1 + r.Intn(4)
+		}
 		if shape == 0 {
 			cnt = 0
 		}
@@ -103,6 +232,9 @@ func TestVerifC17Chain(t *testing.T) {
 				continue
 			}
 			p := vC17Prefix(r)
+			if r.Intn(10) == 0 { // lists covering (part of) the loopback block: both verdicts in the sentinel sweep
+				p = netip.MustParsePrefix([]string{"127.0.0.0/8", "127.0.0.255/32", "127.0.0.254/31"}[r.Intn(3)])
+			}
 			good = append(good, p)
 			cidrs = append(cidrs, p.String())
 		}
@@ -110,8 +242,13 @@ func TestVerifC17Chain(t *testing.T) {
 		middleware.Reset()
 		defaults.RegisterUpTo("resolver")
 		middleware.Register(witness.Name(), func(*config.Config) middleware.Handler { return witness })
-		cfg := &config.Config{Bind: "127.0.0.1:0", Expire: 600, CacheSize: 10240, AccessList: cidrs}
-		reflexOn := r.Intn(3) == 0
+		cfg := &config.Config{Bind: "127.0.0.1:0", Expire: 600, CacheSize: 10240, AccessList: append([]string(nil), cidrs...)}
+		reflexOn := false
+		if fixed {
+			reflexOn = corpus[c+len(corpus)].Reflex
+		} else {
+			reflexOn = r.Intn(3) == 0
+		}
 		if reflexOn { // an answering handler that only speaks under load: amplification detection in block mode
 			cfg.ReflexEnabled = true
 			cfg.ReflexBlockMode = true
@@ -124,7 +261,7 @@ func TestVerifC17Chain(t *testing.T) {
 			pcoq = append(pcoq, fmt.Sprintf("mk_prefix %v %s %d", g.Addr().Is4(), vC17Big(g.Addr()).String(), g.Bits()))
 		}
 		// warm one name from an allowed source through the decoded path
-		warm := fmt.Sprintf("warm%d.c17.test.", c)
+		warm := fmt.Sprintf("warm%d.c17.test.", c+len(corpus))
 		wq := new(dns.Msg)
 		wq.SetQuestion(warm, dns.TypeA)
 		wq.SetEdns0(1232, false)
@@ -133,6 +270,88 @@ func TestVerifC17Chain(t *testing.T) {
 			allowedSrc = good[0].Addr()
 		}
 		s.ServeMsg(context.Background(), mock.NewWriter("udp", netip.AddrPortFrom(allowedSrc, 4242).String()), wq)
+		emitChain := func(srcDesc string, ip net.IP, port int, path int, cached bool, tag string, declinedMode int) {
+			name := warm
+			if !cached {
+				qn++
+				name = fmt.Sprintf("cold%d.c17.test.", qn)
+			}
+			q := new(dns.Msg)
+			q.SetQuestion(name, dns.TypeA)
+			q.SetEdns0(1232, false)
+			// a shape the engine's header check admits but the strict parser declines
+			// (OPT plus one more additional record): it takes the decoded fallback
+			declined := declinedMode == 1
+			if declinedMode < 0 {
+				declined = (path == 0 || path == 3 || path == 4) && r.Intn(3) == 0
+			}
+			if declined {
+				q.Extra = append(q.Extra, &dns.TXT{Hdr: dns.RR_Header{Name: "x.", Rrtype: dns.TypeTXT, Class: dns.ClassINET, Ttl: 0}, Txt: []string{"v"}})
+			}
+			before := witness.calls
+			remote, replied := vC17Serve(s, path, ip, port, q)
+			delta := witness.calls - before
+			k := "chain-denied"
+			if replied {
+				k = "chain-allowed"
+			}
+			b, _ := json.Marshal(map[string]any{
+				"k":          k + tag,
+				"coq":        fmt.Sprintf("CaseChain %d [%s] %s %d %v %v %d", len(cidrs), strings.Join(pcoq, "; "), remote, path, cached, replied, delta),
+				"nontrivial": true,
+				"desc":       map[string]any{"accesslist": cidrs, "src": srcDesc, "src_ip_bytes": len(ip), "src_port": port, "path": vC17Paths[path], "strict_declined_shape": declined, "reflex_block_mode": reflexOn, "cached_name": cached, "replied": replied, "resolver_calls": delta},
+			})
+			f.Write(append(b, '\n'))
+		}
+		// a burst of high-amplification queries from one source, before anything else is heard from it (a TCP exchange would mark the source as unspoofed): whatever
+		// runs ahead of the access list must not start answering a denied source under load
+		emitBurst := func(srcDesc string, ip net.IP, port int, path int, nb int, qtype uint16, tag string) {
+			before := witness.calls
+			replied := false
+			remote := ""
+			for i := 0; i < nb; i++ {
+				q := new(dns.Msg)
+				q.SetQuestion("example.org.", qtype)
+				q.SetEdns0(4096, true)
+				rm, rp := vC17Serve(s, path, ip, port, q)
+				remote = rm
+				replied = replied || rp
+			}
+			delta := witness.calls - before
+			b, _ := json.Marshal(map[string]any{
+				"k":          "chain-burst" + tag,
+				"coq":        fmt.Sprintf("CaseChainBurst %d [%s] %s %d %v %d", len(cidrs), strings.Join(pcoq, "; "), remote, nb, replied, delta),
+				"nontrivial": true,
+				"desc":       map[string]any{"accesslist": cidrs, "src": srcDesc, "path": vC17Paths[path], "burst": nb, "reflex_block_mode": reflexOn, "any_reply": replied, "resolver_calls": delta},
+			})
+			f.Write(append(b, '\n'))
+		}
+		if fixed {
+			for _, pb := range corpus[c+len(corpus)].Probes {
+				a := netip.MustParseAddr(pb.Src)
+				ip := net.IP(a.AsSlice())
+				if pb.Form == 16 && a.Is4() {
+					b := a.As16()
+					ip = net.IP(b[:])
+				}
+				path := 0
+				for i, nm := range vC17Paths {
+					if nm == pb.Path {
+						path = i
+					}
+				}
+				if pb.Burst > 0 {
+					emitBurst(pb.Src, ip, pb.Port, path, pb.Burst, dns.TypeDNSKEY, "-corpus")
+					continue
+				}
+				dm := 0
+				if pb.Declined {
+					dm = 1
+				}
+				emitChain(pb.Src, ip, pb.Port, path, pb.Cached, "-corpus", dm)
+			}
+			continue
+		}
 		for pr := 0; pr < 6; pr++ {
 			g := vC17Prefix(r)
 			if len(good) > 0 {
@@ -152,90 +371,23 @@ func TestVerifC17Chain(t *testing.T) {
 			if !src.IsValid() {
 				src = g.Addr()
 			}
-			// a burst of high-amplification queries from this source over UDP, before anything else is heard from it (a TCP exchange would mark the source as unspoofed): whatever
-			// runs ahead of the access list must not start answering a denied source under load
-			{
-				before := witness.calls
-				replied := false
-				nb := 40 + r.Intn(40)
-				for i := 0; i < nb; i++ {
-					q := new(dns.Msg)
-					q.SetQuestion("example.org.", []uint16{dns.TypeDNSKEY, dns.TypeANY, dns.TypeTXT}[pr%3])
-					q.SetEdns0(4096, true)
-					if pr%2 == 0 {
-						mw := mock.NewWriter("udp", netip.AddrPortFrom(src, 4242).String())
-						s.ServeMsg(context.Background(), mw, q)
-						replied = replied || mw.Written()
-					} else {
-						raw, _ := q.Pack()
-						job := &strictTestJob{remote: net.UDPAddr{IP: net.IP(src.AsSlice()), Port: 4242}}
-						s.ServeRaw(job, raw, time.Now())
-						replied = replied || len(job.wrote) > 0
-					}
-				}
-				delta := witness.calls - before
-				b, _ := json.Marshal(map[string]any{
-					"k":          "chain-burst",
-					"coq":        fmt.Sprintf("CaseChainBurst %d [%s] (mk_addr %v %s) %d %v %d", len(cidrs), strings.Join(pcoq, "; "), src.Is4(), vC17Big(src).String(), nb, replied, delta),
-					"nontrivial": true,
-					"desc":       map[string]any{"accesslist": cidrs, "src": src.String(), "burst": nb, "reflex_block_mode": reflexOn, "any_reply": replied, "resolver_calls": delta},
-				})
-				f.Write(append(b, '\n'))
-			}
-			for path := 0; path < 4; path++ {
+			emitBurst(src.String(), net.IP(src.AsSlice()), 4242, 1-pr%2, 40+r.Intn(40), []uint16{dns.TypeDNSKEY, dns.TypeANY, dns.TypeTXT}[pr%3], "")
+			extra := 4 + r.Intn(4) // besides the four UDP/TCP paths, one of: TCP/DoT job, DoH writer, DoQ-like writer, foreign address type
+			for _, path := range []int{0, 1, 2, 3, extra} {
 				for _, cached := range []bool{true, false} {
-					name := warm
-					if !cached {
-						qn++
-						name = fmt.Sprintf("cold%d.c17.test.", qn)
-					}
-					q := new(dns.Msg)
-					q.SetQuestion(name, dns.TypeA)
-					q.SetEdns0(1232, false)
-					// a shape the engine's header check admits but the strict parser declines
-					// (OPT plus one more additional record): it takes the decoded fallback
-					declined := (path == 0 || path == 3) && r.Intn(3) == 0
-					if declined {
-						q.Extra = append(q.Extra, &dns.TXT{Hdr: dns.RR_Header{Name: "x.", Rrtype: dns.TypeTXT, Class: dns.ClassINET, Ttl: 0}, Txt: []string{"v"}})
-					}
-					before := witness.calls
-					replied := false
-					switch path {
-					case 0: // wire fast path
-						raw, _ := q.Pack()
-						job := &strictTestJob{remote: net.UDPAddr{IP: net.IP(src.AsSlice()), Port: 4242}}
-						s.ServeRaw(job, raw, time.Now())
-						replied = len(job.wrote) > 0
-					case 3: // the UDP reader's inline pass, then the worker's replay when it hands off
-						raw, _ := q.Pack()
-						job := &strictTestJob{remote: net.UDPAddr{IP: net.IP(src.AsSlice()), Port: 4242}}
-						now := time.Now()
-						if !s.ServeRawInline(job, raw, now) && len(job.wrote) == 0 {
-							s.ServeRawReplay(job, raw, now)
-						}
-						replied = len(job.wrote) > 0
-					case 1:
-						mw := mock.NewWriter("udp", netip.AddrPortFrom(src, 4242).String())
-						s.ServeMsg(context.Background(), mw, q)
-						replied = mw.Written()
-					case 2:
-						mw := mock.NewWriter("tcp", netip.AddrPortFrom(src, 4242).String())
-						s.ServeMsg(context.Background(), mw, q)
-						replied = mw.Written()
-					}
-					delta := witness.calls - before
-					k := "chain-denied"
-					if replied {
-						k = "chain-allowed"
-					}
-					b, _ := json.Marshal(map[string]any{
-						"k":          k,
-						"coq":        fmt.Sprintf("CaseChain %d [%s] (mk_addr %v %s) %d %v %v %d", len(cidrs), strings.Join(pcoq, "; "), src.Is4(), vC17Big(src).String(), path, cached, replied, delta),
-						"nontrivial": true,
-						"desc":       map[string]any{"accesslist": cidrs, "src": src.String(), "path": []string{"wire", "decoded-udp", "decoded-tcp", "inline+replay"}[path], "strict_declined_shape": declined, "reflex_block_mode": reflexOn, "cached_name": cached, "replied": replied, "resolver_calls": delta},
-					})
-					f.Write(append(b, '\n'))
+					emitChain(src.String(), net.IP(src.AsSlice()), 4242, path, cached, "", -1)
 				}
+			}
+		}
+		// the neighbourhood of the sub-query signature (127.0.0.255 port 0) on every transport: the sentinel address in
+		// both byte forms and its neighbours, port 0 and real ports, over all eight paths
+		for si, sip := range []net.IP{{127, 0, 0, 255}, net.IPv4(127, 0, 0, 255), {127, 0, 0, 254}, {127, 0, 1, 0}} {
+			for path := 0; path < 8; path++ {
+				port := []int{0, 4242, 53, 65535, 1, 1024 + r.Intn(60000)}[r.Intn(6)]
+				if (si+path)%3 == 0 {
+					port = []int{4242, 40000, 1}[r.Intn(3)]
+				}
+				emitChain(sip.String(), sip, port, path, (si+path+c)%2 == 0, "-sentinel-sweep", -1)
 			}
 		}
 	}
